@@ -1,5 +1,28 @@
 # C18 -- isequal / isclose are exact, shape-aware, symmetric, total comparison oracles
-META = dict(level='proof', level_text='', level_note='', trusted_base=[], assumptions=[], not_covered=[])
+META = dict(
+    level='proof',
+    level_text='Every wrapper postcondition is `result == oracle definition` (same length and all elements equal / all |a[i]-b[i]| < eps, looking only at [0,len) of either operand, both argument orders) and is discharged by CBMC (dfcc) for all inputs of the instantiation: the two element loops (detail::isequal index-array branch, detail::isclose ndarray branch) are closed by loop contracts, everything else is loop-free; index arrays static_vector<size_t,8> (length 0..8 symbolic, all 64-bit values, storage behind size_ nondeterministic), array<size_t,3>, optionals, scalars, static_vector<float,8> with arbitrary float eps. On the unchanged tree the proof holds on the complement of the recorded defect regions (length/shape mismatch that the code does not look at).',
+    level_note='isclose at array level is proved modularly: the scalar kernel detail::isclose(float,float,float) is proved bit-precisely equal to |t-u| < eps (and symmetric) and used through that contract, with the predicate uninterpreted, in the array unit; array-level symmetry of isclose follows from the scalar symmetry + the symmetric form of the definition (not a separate obligation). Trusted: clang AST, cxx2c rendering, C models of std::optional / std::array, CBMC.',
+    trusted_base=[
+        'clang 14 front end (AST of the instantiated templates)', 'engine/cxx2c.py (C++ AST -> C rendering)',
+        'C models of std::optional<T> ({has,val}) and std::array<T,N> ({_M_elems[N]})',
+        'cbmc 6.11.0 / goto-instrument --dfcc (contract instrumentation, float bit-blasting, SAT back end)',
+    ],
+    assumptions=[
+        'configuration: -DNDEBUG (asserts compiled out, the baseline build), STL enabled',
+        'representation invariant of static_vector operands: size_ <= 8 (precondition)',
+        'isclose.fv_fv (mode uf): unsigned long * / % uninterpreted with the axioms of models/prelude.h; scalar closeness uninterpreted, tied to |t-u| < eps by the contract of detail::isclose(float,float,float) proved in unit isclose.scalar',
+        'ghost w (first differing position of the scan) is a functional definition assumed in the precondition',
+    ],
+    not_covered=[
+        'ndarray x ndarray branch of detail::isequal (dim/size compared only by nmtools_cassert; same pattern as the recorded defect, not instantiated here)',
+        'isclose / isequal on multi-dimensional arrays and views (ndindex over rank > 1), nested arrays',
+        'either / tuple alternatives, slice and attribute operands, none/ellipsis, integral constants, dtype comparison',
+        'mixed-signedness scalars (compared after the usual arithmetic conversions: isequal(-1, SIZE_MAX) is true)',
+        'NMTOOLS_ISCLOSE_NAN_HANDLING / INF_HANDLING configurations; builds without NDEBUG (asserts abort instead of returning false)',
+        'compile-time (constexpr / type-level) operands',
+    ],
+)
 UNITS = [
     Unit('isequal.sv_sv', 'c18', 'verif_isequal_sv', unwind=10, clause='index arrays: true exactly when same length and all elements equal; symmetric; result independent of storage outside [0,len)'),
     Unit('isequal.refl', 'c18', 'verif_isequal_refl', unwind=10, clause='reflexive'),
